@@ -38,7 +38,25 @@ struct in_s {
 };
 #include "verif_in.h"
 
+/* Shape knobs (concrete per job, they keep CBMC's state merging small):
+ *   PAT   string over {s,r,n}: kind of step i (send / receive / send from inside a callback); default: symbolic kinds
+ *   DOWN  bit mask of threads whose pthread_create() fails with EPERM (state stays STOP); default: symbolic results
+ *   LATE  bit mask of created threads that are still STARTING (not yet in their loop) during the steps */
+#ifdef DOWN
+#define V_PC_RESULT(i)	((((DOWN) >> (i)) & 1) ? 2 : 0)
+#else
 #define V_PC_RESULT(i)	(IN.pc_res[(i)] % 3)
+#endif
+#ifdef PAT
+#define STEP_KIND(i)	((PAT)[(i)] == 's' ? 0 : ((PAT)[(i)] == 'n' ? 3 : 1))
+#else
+#define STEP_KIND(i)	(IN.step[(i)].kind)
+#endif
+#ifdef LATE
+#define STARTED(t)	(!(((LATE) >> (t)) & 1))
+#else
+#define STARTED(t)	(IN.started[(t)])
+#endif
 
 #include "threadpool/threadpool.c"
 #include "c05_msg_sys_unicast.c"	/* verbatim slice of threadpool_msg_sys.c written by gen.py: broadcast and async-op functions dropped */
@@ -188,13 +206,13 @@ harness(void) {
 	V_ASSERT(0 == tp_threads_create(tp, 0), "tp_threads_create");
 	for (t = 0; t < NTHR; t ++) {
 		up[t] = tpt_is_running(tp_thread_get(tp, (size_t)t));	/* t is a constant after unrolling */	/* STARTING unless pthread_create failed */
-		if (up[t] && IN.started[t])
+		if (up[t] && STARTED(t))
 			start_thread(t);
 	}
 
 	for (i = 0; i < NSTEP; i ++) {
 		const struct step_s *st = &IN.step[i];
-		if (0 == st->kind) {
+		if (0 == STEP_KIND(i)) {
 			unsigned w = st->who % (NTHR + 1);
 			if (w > 0 && !running[w - 1])
 				continue;	/* only a thread that runs can send as itself */
@@ -203,7 +221,7 @@ harness(void) {
 			v_cur = -1;
 		}
 #ifdef NEST
-		else if (3 == st->kind) {
+		else if (3 == STEP_KIND(i)) {
 			if (nest_step < 0)
 				nest_step = i;	/* issued by whichever pool thread delivers the next callback */
 		}
